@@ -10,6 +10,7 @@ mod sectorops;
 mod cross;
 mod langrun;
 mod asmrun;
+mod minrun;
 mod malform;
 mod packrun;
 mod codec;
@@ -48,7 +49,9 @@ fn dispatch(toks: &[&str]) -> String {
         "deseq" | "dosbin" | "dostok" | "pack" | "txtb" => packrun::dispatch(toks),
         "malform" => malform::run(toks),
         "wozchunk" | "imdparse" | "dosunbin" | "dasmsweep" => malform::pieces(toks),
-        "tokrt" | "escas" | "escint" | "unesc" | "menc" | "mdec" | "mfmt" => langrun::dispatch(toks),
+        "tokrt" | "escas" | "escint" | "unesc" | "menc" | "mdec" | "mfmt" | "renum" | "applyright" => langrun::dispatch(toks),
+        "minichk" => minrun::minichk(toks),
+        "minify" => minrun::minify(toks),
         "dasmrt" => asmrun::dasmrt(toks),
         "dasmtext" => asmrun::dasmtext(toks),
         "asmline" => asmrun::asmline(toks),
